@@ -11,8 +11,8 @@ ASSUMPTIONS = [
     "delivery model: per-channel FIFO interleavings, sleep-set reduced; canonical schedule where stated",
 ]
 BOUNDS = {
-    "quick": "MGM: pair (all schedules), chain-3 (canonical schedule), min and max; MGM2: pair; stop_cycle 3",
-    "thorough": "quick + MGM triangle, star-3, ternary; MGM2 chain-3; chain-3 all schedules",
+    "quick": "MGM: pair (all schedules), chain-3 (canonical schedule), min and max; MGM2: pair, chain-3 pinned to the witness tables of the committed-tie finding; stop_cycle 3",
+    "thorough": "quick + MGM triangle, star-3, ternary; chain-3 all schedules; bug hunting only (cpu budget): MGM2 chain-3 with symbolic tables",
 }
 OUTSIDE = "more than 4 variables, domain above 2, cycles beyond the third (inductive reading through arbitrary initial values; "\
           "state carried across cycles such as MGM's cached cost is exercised by cycles 2 and 3 only)"
@@ -26,24 +26,57 @@ def jobs(tier):
         out.append({"name": "mgm-chain3-fixed-%s" % mode, "algo": "mgm", "spec": spec("chain3", mode), "stop": 3, "upfront": True,
                     "fixed": True})
         out.append({"name": "mgm2-pair-%s" % mode, "algo": "mgm2", "spec": spec("pair", mode), "stop": 3, "upfront": True})
+        if mode == "min":
+            # the listed MGM2 committed-tie finding, pinned to its recorded witness tables (all random choices explored)
+            out.append({"name": "mgm2-chain3-tie-witness-min", "algo": "mgm2", "stop": 3, "upfront": True, "fixed": True,
+                        "spec": spec("chain3", "min", pins={"c0_00": 0, "c0_01": 1, "c0_10": 0, "c0_11": 0,
+                                                            "c1_00": 2, "c1_01": 2, "c1_10": 0, "c1_11": -2})})
         if tier == "thorough":
             for s in ("triangle", "star3", "ternary"):
                 out.append({"name": "mgm-%s-%s" % (s, mode), "algo": "mgm", "spec": spec(s, mode), "stop": 3, "upfront": True,
                             "fixed": s != "ternary"})
             out.append({"name": "mgm-chain3-allsched-%s" % mode, "algo": "mgm", "spec": spec("chain3", mode), "stop": 3,
                         "upfront": True})
+            # > 10^6 paths: bug hunting only
             out.append({"name": "mgm2-chain3-%s" % mode, "algo": "mgm2", "spec": spec("chain3", mode), "stop": 3, "upfront": True,
-                        "fixed": True})
+                        "fixed": True, "hunt_cpu_s": 2400})
     return out
+
+
+_TIES = []
+
+
+def _watch_committed_ties():
+    """Records (non forking) every gain phase in which a committed MGM2 computation's gain ties with another neighbour's."""
+    from pydcop.algorithms.mgm2 import Mgm2Computation
+    if getattr(Mgm2Computation._handle_gain_messages, "_verif_wrapped", False):
+        return
+    orig = Mgm2Computation._handle_gain_messages
+
+    def wrapped(self):
+        if self._committed and self._partner is not None:
+            others = [g for n, g in self._neighbors_gains.items() if n != self._partner.name]
+            if others:
+                _TIES.append(F.and_(F.ne(self._potential_gain, 0), F.eq(self._potential_gain, F.max_(others))))
+        return orig(self)
+    wrapped._verif_wrapped = True
+    Mgm2Computation._handle_gain_messages = wrapped
 
 
 def regions(eng, r, p):
     inst = r["inst"]
     # known finding: MGM2 computes gains as current - best, negative for improvements in max mode, but lets the largest gain move
-    return region(eng, "C04-mgm2-max-gain-sign", p["algo"] == "mgm2" and inst.mode == "max")
+    regs = region(eng, "C04-mgm2-max-gain-sign", p["algo"] == "mgm2" and inst.mode == "max")
+    # known finding: a committed pair needs a strictly larger gain than its other neighbours, while an uncommitted neighbour
+    # with the same gain defers to a lexically smaller name: on such a tie nobody moves
+    regs += region(eng, "C04-mgm2-committed-tie", p["algo"] == "mgm2" and bool(_TIES) and F.or_(list(_TIES)))
+    return regs
 
 
 def run(eng, p):
+    del _TIES[:]
+    if p["algo"] == "mgm2":
+        _watch_committed_ties()
     r = run_mgm(eng, p)
     inst = r["inst"]
     regs = regions(eng, r, p)
